@@ -31,7 +31,18 @@ pub struct Pool { e: Vec<Cp> }
 
 fn unq(x: &Js) -> bool { !x.is_empty() && x.iter().all(|&c| c != '.' as u32 && c != ';' as u32 && c != '[' as u32 && c != '/' as u32) }
 fn class_name_ok(x: &Js, allow_array: bool) -> bool {
-	if x.first() == Some(&('[' as u32)) { return allow_array; }
+	if x.first() == Some(&('[' as u32)) {
+		// JVMS 4.2.1: an array class name is an array field descriptor (at most 255 dimensions)
+		if !allow_array { return false; }
+		let dims = x.iter().take_while(|&&c| c == '[' as u32).count();
+		let rest = &x[dims..];
+		if dims > 255 || rest.is_empty() { return false; }
+		let c = char::from_u32(rest[0]).unwrap_or(' ');
+		if "BCDFIJSZ".contains(c) { return rest.len() == 1; }
+		if c != 'L' || *rest.last().unwrap() != ';' as u32 { return false; }
+		let name = &rest[1..rest.len() - 1];
+		return !name.contains(&(';' as u32)) && class_name_ok(&name.to_vec(), false);
+	}
 	x.split(|&c| c == '/' as u32).all(|seg| unq(&seg.to_vec()))
 }
 fn method_name_ok(x: &Js) -> bool {
